@@ -73,5 +73,13 @@ def unfold (S : Spec) : Spec :=
     (fun idx => nm idx || nm (revIdx sh idx) || isCorner sh idx)
     false
 
+/-- `Numerics.reverse_array(fs)` = `fs[::-1, ::-1, …]`: every axis reversed (data and mask), flag kept -/
+def mirror (S : Spec) : Spec :=
+  let sh := S.shape
+  ofFn sh (fun idx => S.getD (revIdx sh idx)) (fun idx => S.getM (revIdx sh idx)) S.folded
+
+/-- `fs.data.sum()`: the sum of the raw data array (values under masked cells included) -/
+def total (S : Spec) : Rat := sumL ((List.range (prodL S.shape)).map fun k => S.data.getD k 0)
+
 end Spec
 end DadiVerif
